@@ -34,6 +34,18 @@ Fixpoint value_eqb (a b : value) : bool :=
   | _, _ => false
   end.
 
+(* how deep lists and maps are nested (a scalar is 0, [1] is 1); exec_list / exec_map refuse to build a value nested deeper
+   than MAX_VDEPTH (value.rs nested_beyond, parser.rs bounded; the constant is the parser's MAX_DEPTH) *)
+Fixpoint vdepth (v : value) : N :=
+  match v with
+  | VList l => 1 + (fix go (l : list value) : N := match l with [] => 0 | x :: r => N.max (vdepth x) (go r) end) l
+  | VMap l => 1 + (fix go (l : list (value * value)) : N :=
+                     match l with [] => 0 | (k, x) :: r => N.max (N.max (vdepth k) (vdepth x)) (go r) end) l
+  | _ => 0
+  end.
+Definition MAX_VDEPTH : N := 256.
+Definition vbounded (v : value) : bool := vdepth v <=? MAX_VDEPTH.
+
 (* accessors: Err on every other variant *)
 Definition v_decimal (v : value) : outcome dec := match v with VNum d => Ok d | _ => Err end.
 Definition v_string (v : value) : outcome str := match v with VStr s => Ok s | _ => Err end.
